@@ -761,6 +761,46 @@ def run(ctx, anchors=None):
                  "every path from %s's main to a user of the verification context passes a function holding an ECCVerifyHandle" % prog_name,
                  "%s reaches %s without any ECCVerifyHandle alive (no global holder is linked into %s): secp256k1_context_verify is null there - assertion failure / null context: %s"
                  % (prog_name, bare[0].name if bare else "", prog_name, " -> ".join(prog.chain(seen, bare[0].id)[:8]) if bare else ""))
+    # ---------------------------------------------------------------- R15.17 the signing context exists wherever it is used
+    # (sibling rule: twelve of the thirteen users in value.cpp create it on first use; the odd one out handed libsecp256k1 a null
+    # context). A user is fine if a call of ECC_Start dominates its first read, or if the tool's main calls ECC_Start on every path.
+    ctx.rule("R15.17", "every use of secp256k1_context_sign reachable from a tool's main is preceded by its creation (ECC_Start in the function, or unconditionally in that main)")
+    sreaders = [f for f in fb.funcs.values() if f.body is not None and f.name not in ("ECC_Start", "ECC_Stop") and
+                any(n["k"] == "ref" and n["n"] == "secp256k1_context_sign" and n.get("dk") == "global" for n in f.nodes())]
+    if not sreaders:
+        raise AnalysisBroken("R15.17: no function reads secp256k1_context_sign")
+
+    def starts_context(f):
+        fcfg = f.cfg()
+        starts = [n for n in f.nodes() if n["k"] == "call" and n.get("n") == "ECC_Start"]
+        if not starts:
+            return False
+        uses = [n for n in f.nodes() if n["k"] == "ref" and n["n"] == "secp256k1_context_sign" and n.get("dk") == "global"]
+        ok_all = True
+        for u in uses:
+            # the read that is the null test guarding ECC_Start itself is part of the idiom
+            if any(a.get("k") == "if" and S.contains(a.get("cond"), u) and any(S.contains(a.get("then"), st) for st in starts) for a in f.ancestors(u)):
+                continue
+            guard_ifs = [a for st in starts for a in f.ancestors(st) if a.get("k") == "if"]
+            if not any(fcfg.dominates(st, u) for st in starts) and not any(fcfg.dominates(g["cond"], u) for g in guard_ifs):
+                ok_all = False
+        return ok_all
+    n17 = 0
+    for m in mains:
+        reach_m = prog.reachable([m])
+        mcfg = m.cfg()
+        main_starts = [n for n in m.nodes() if n["k"] == "call" and n.get("n") == "ECC_Start"]
+        main_ok = bool(main_starts) and mcfg.must_pass_from_block(mcfg.entry, main_starts)
+        for r in sorted(sreaders, key=lambda f_: f_.id):
+            if r.id not in reach_m or r is m:
+                continue
+            n17 += 1
+            ctx.site()
+            okr = main_ok or starts_context(r)
+            ctx.inst(okr, "R15.17", "sign-context@%s<-%s" % (r.name, m.file), r.loc(),
+                     "%s %s" % (r.name, "creates the signing context on first use" if not main_ok else "runs after %s's main created the signing context" % m.file),
+                     "%s uses secp256k1_context_sign but, unlike its siblings, does not create it on first use, and %s never calls ECC_Start: libsecp256k1 is handed a null context (its error callbacks dereference it)" % (r.name, m.file))
+    ctx.floor("R15.17", n17, 8, "users of the signing context reachable from the tools")
     # ---------------------------------------------------------------- R15.6 / R15.8 (shared with C17)
     from .. import report
     sub = report.Ctx("C17", ctx.tier, fb, prog, ctx.seed)
@@ -1504,6 +1544,7 @@ def callers_establish(fb, prog, ctor, a, K):
 
 
 MUTANTS = [
+    dict(name="signing-context-not-created", file="value.cpp", find="void Value::do_pubkey_to_xpubkey() {\n    if (!secp256k1_context_sign) ECC_Start();\n", replace="void Value::do_pubkey_to_xpubkey() {\n", expect=["R15.17:sign-context@Value::do_pubkey_to_xpubkey"]),
     dict(name="tap-ignores-failed-configuration", file="tap.cpp", find="        if (!instance.configure_tx_txin()) abort(", replace="        instance.configure_tx_txin(); if (false) abort(", expect=["R15.16:status-used:configure_tx_txin@main"]),
     dict(name="sighash-for-any-input-count", file="instance.cpp", find="    if (tx->vin.size() != 1) {\n        fprintf(stderr, \"error: a signature hash can only be computed", replace="    if (false) {\n        fprintf(stderr, \"error: a signature hash can only be computed", expect=["R15.7:size-relation=Init@Instance::calc_sighash"]),
     dict(name="listing-iterator-carried-over", file="functions.cpp", find="        if (siter > 0) {\n            if (headers[siter] != \"\") {", replace="        if (siter > 0 && !l.empty()) {\n            if (headers[siter] != \"\") {", expect=["R15.15:iterator-of-the-same-script@svprintscripts"]),
